@@ -845,6 +845,13 @@ class Object(base.Symbolic, metaclass=ObjectMeta):
   def sym_lt(self, other: Any) -> bool:
     """Tests symbolic less-than."""
     if type(self) is not type(other):
+      if type(self).__qualname__ == type(other).__qualname__:
+        # Two different classes of the same qualified name have the same type
+        # order in `base.lt` (which would hand them back to `sym_lt` forever):
+        # order them by module, then by class identity.
+        return (
+            (type(self).__module__, id(type(self)))
+            < (type(other).__module__, id(type(other))))
       return base.lt(self, other)
     return base.lt(self._sym_attributes, other._sym_attributes)  # pylint: disable=protected-access
 
